@@ -57,6 +57,32 @@ class C02(C01):
                 ev.append((t, 0 if rng.random() < 0.8 else rng.choice([1, 2, 3, 4]), rng.choice(T.PACKET_ALPHABET)[1]))
             yield T.mk_case(bytes(i % 251 for i in range(n)), [], options=options, default_tmo=dflt,
                             retries=retries, events=ev)
+        # handling time: taking a datagram off the socket costs `proc` ticks, so a queue of ignored datagrams
+        # (stale ACKs, foreign senders) can still be non-empty when the deadline of the try passes (D20)
+        tm = T.TICKS
+        stale = [T.ack(7), T.ack(0), b"", T.err(5)]
+        for retries in (0, 1):
+            for proc in (1, 100, 512, 1023, 1024, 1500):
+                for k in sorted(set([0, 1, 2, tm // proc, tm // proc + 1, tm // proc + 3, 2 * (tm // proc) + 2])):
+                    if k > 40:
+                        continue
+                    for (t0, a) in ((0, 0), (0, 1), (tm - 1, 0), (5, 4), (tm - proc, 2)):
+                        ev = [(max(0, t0), a, stale[0] if a == 0 else rng.choice(stale)) for _ in range(k)]
+                        for tail in ((), ((max(0, t0) + 1, 0, T.ack(1)),), ((2 * tm - 1, 0, T.ack(1)),)):
+                            yield T.mk_case(b"abc", [], default_tmo=1, retries=retries, events=ev + list(tail), proc=proc)
+        for _ in range(300 if quick else 6000):
+            retries = rng.choice([0, 1, 2])
+            tmo_s = rng.choice([1, 2])
+            tm = tmo_s * T.TICKS
+            proc = rng.choice([1, 2, 7, tm // 3, tm - 1, tm, tm + 1])
+            options = [("timeout", str(tmo_s))] if rng.random() < 0.5 else []
+            t = 0
+            ev = []
+            for _k in range(rng.randrange(0, 10)):
+                t += rng.choice([0, 0, 0, 1, proc, tm // 2, tm - 1, tm])
+                ev.append((t, 0 if rng.random() < 0.7 else rng.choice([1, 2, 3, 4]), rng.choice(T.PACKET_ALPHABET)[1]))
+            yield T.mk_case(bytes(i % 251 for i in range(rng.choice([0, 512, 700]))), [], options=options,
+                            default_tmo=tmo_s if not options else rng.choice([1, 2]), retries=retries, events=ev, proc=proc)
         for _ in range(200 if quick else 3000):
             retries = rng.choice([1, 2, 3])
             nb = rng.randrange(1, 5)
@@ -67,7 +93,7 @@ class C02(C01):
 
     def nontrivial(self, c, obs):
         if any(e[0] == 3 for e in obs) or sum(1 for e in obs if e[0] == 2) >= 2:
-            return (len(c["content"]), tuple(c["options"]), c["retries"], c["default_tmo"], tuple(c["events"]))
+            return (len(c["content"]), tuple(c["options"]), c["retries"], c["default_tmo"], tuple(c["events"]), c.get("proc", 0))
         return None
 
 
